@@ -9,7 +9,10 @@ Import ListNotations.
 From Base Require Import PyStr Regex.
 From Gen Require Import Regexes.
 From Model Require Import Typography.
+From Model Require Ast Transforms.
+From Proofs Require RenderProofs.
 From Proofs Require Import RegexSem TypoProofs.
+From Proofs Require ScopeProofs.
 
 Theorem C08_cert : typo_cert = true.
 Proof. vm_compute. reflexivity. Qed.
@@ -48,3 +51,13 @@ Print Assumptions C08_smart_quotes_tags_fixed.
 Theorem C08_smart_quotes_total : forall text, exists out, smart_quotes text = inl out.
 Proof. intros text. exact (smart_quotes_total text C08_cert). Qed.
 Print Assumptions C08_smart_quotes_total.
+
+(* 6. Quotes are only paired within one paragraph: the document-level rewrite hands the rewrite function
+   one inline scope (paragraph, heading, table cell) at a time; every leaf of the result is the rewrite
+   of the corresponding leaf alone, whatever the rest of the document holds. *)
+Theorem C08_rewrite_is_per_paragraph : forall f bs bs',
+  Transforms.rewrite_text_across_inlines f bs = ret bs' ->
+  Forall2 (fun l l' => Transforms.across_leaf f l = ret l')
+          (concat (map RenderProofs.blk_leaves (Transforms.coalesce_doc bs))) (concat (map RenderProofs.blk_leaves bs')).
+Proof. exact ScopeProofs.across_inlines_leafwise. Qed.
+Print Assumptions C08_rewrite_is_per_paragraph.
